@@ -233,6 +233,53 @@ func runC09(c *runCtx) {
 		corpus = append(corpus, "SELECT a FROM t WHERE b IS NULL AND c IS NOT NULL", "SELECT a[1], b[2:3], ARRAY[1, 2], (x, y), CAST(z AS INT), EXTRACT(YEAR FROM d) FROM t WHERE e IS NULL",
 			"SELECT CASE WHEN a IS NULL THEN 1 END FROM t WHERE b BETWEEN 1 AND 2 OR c IN (1, 2) OR d LIKE 'x' OR EXISTS (SELECT 1)")
 	}
+	// no released tree puts one object into a pool twice: after parse + release, the objects drawn from each pool while
+	// all of them are held are pairwise distinct (the parser builds trees in which one node can be reachable through two
+	// fields, e.g. the first FROM item and the left operand of the first JOIN)
+	shared := []string{
+		"SELECT d.a FROM (SELECT a FROM t WHERE a > 0) d JOIN u ON d.a = u.a",
+		"SELECT d.a FROM (SELECT a FROM t) d LEFT JOIN u ON d.a = u.a JOIN v ON v.a = u.a",
+		"SELECT t.a FROM t JOIN (SELECT a FROM u) d ON t.a = d.a JOIN (SELECT b FROM w) e ON e.b = d.a",
+		"SELECT * FROM (SELECT a FROM t) d, (SELECT b FROM u) e WHERE d.a = e.b",
+		"SELECT * FROM t, LATERAL (SELECT a FROM u WHERE u.i = t.i) l JOIN v ON v.i = l.a",
+		"WITH c AS (SELECT a FROM t) SELECT c.a FROM c JOIN (SELECT a FROM c) d ON c.a = d.a",
+		"SELECT a FROM t WHERE a IN (SELECT b FROM u) AND EXISTS (SELECT 1 FROM v) UNION SELECT b FROM (SELECT b FROM w) x JOIN y ON x.b = y.b",
+		"INSERT INTO t (a) SELECT d.a FROM (SELECT a FROM u) d JOIN v ON d.a = v.a",
+		"UPDATE t SET a = (SELECT max(b) FROM (SELECT b FROM u) d JOIN v ON d.b = v.b) WHERE c IN (SELECT c FROM w)",
+		"DELETE FROM t WHERE a IN (SELECT d.a FROM (SELECT a FROM u) d JOIN v ON d.a = v.a)",
+		"SELECT CASE WHEN a = 1 THEN b ELSE c END, CAST(d AS INT), e BETWEEN 1 AND 2, f IN (1, 2), g[1], (h, i) FROM t GROUP BY a HAVING count(*) > 1",
+	}
+	drawn := 0
+	for si, sqlText := range append(shared, corpus...) {
+		if si >= len(shared)+c.n(400, 4000) {
+			break
+		}
+		tree, err := gosqlx.Parse(sqlText)
+		if err != nil {
+			continue
+		}
+		ast.ReleaseAST(tree)
+		for _, pe := range poolRegistry() {
+			if pe.get == nil || strings.HasPrefix(pe.site, "PutExpression/") {
+				continue
+			}
+			seen := map[uintptr]int{}
+			for k := 0; k < 6; k++ {
+				o := pe.get()
+				addr := reflect.ValueOf(o).Pointer()
+				if j, dup := seen[addr]; dup {
+					res.fail("pool-holds-object-twice:"+pe.typ.Name(), fmt.Sprintf("after a tree was released, draws %d and %d from the %s pool return the same object while both are held", j, k, pe.typ.Name()),
+						map[string]any{"history": []string{"gosqlx.Parse", "ast.ReleaseAST", "6 x Get" + strings.TrimPrefix(pe.site, "Put")}, "sql": sqlText}, nil)
+					break
+				}
+				seen[addr] = k
+				drawn++
+			}
+			// the drawn objects are not handed back: later statements start from what their own release pooled
+		}
+		res.count("draw-distinct|"+sqlText, true)
+	}
+	res.Stats["pool_objects_drawn"] = drawn
 	rounds := c.n(300, 5000)
 	for i := 0; i < rounds; i++ {
 		a := corpus[c.rng.Intn(len(corpus))]
